@@ -36,6 +36,7 @@ REPLAY_DIR = os.environ.get("VERIF_REPLAY_DIR") or os.path.join(VERIF, "replays"
 REGRESSION_DIR = os.path.join(VERIF, "regressions")
 WORK_DIR = os.path.join(VERIF, ".work")
 NPROC = int(os.environ.get("VERIF_JOBS", "16"))
+SHRINK_BUDGET_S = float(os.environ.get("VERIF_SHRINK_S", "15"))
 
 
 class HarnessError(Exception):
@@ -144,7 +145,7 @@ def run_hypothesis(
     to_json: Callable[[Any], Any] = lambda c: c,
     classify: Optional[Callable[[Any], tuple]] = None,
     shrink: bool = True,
-    max_root_causes: int = 4,
+    max_root_causes: int = 3,
     sample_cap: int = 3,
 ):
     """Runs `oracle` over cases drawn from `strategy`.
@@ -165,10 +166,17 @@ def run_hypothesis(
     class _Fail(Exception):
         pass
 
+    class _Stop(BaseException):
+        """aborts Hypothesis' shrinker when the minimisation budget is spent"""
+
     for attempt in range(max_root_causes):
         last = {}
 
         def body(case):
+            # minimisation budget: once a failure is known, shrinking gets SHRINK_BUDGET_S seconds;
+            # afterwards further candidates are not evaluated (the smallest failing case so far is kept)
+            if last and time.monotonic() - last["t0"] > SHRINK_BUDGET_S:
+                raise _Stop()
             try:
                 ds = oracle(case)
             except HarnessError:
@@ -189,6 +197,7 @@ def run_hypothesis(
                 else:
                     fresh.append(d)
             if fresh:
+                last.setdefault("t0", time.monotonic())
                 last["case"] = to_json(case)
                 last["ds"] = fresh
                 # one root cause at a time so that shrinking stays on it
@@ -211,7 +220,7 @@ def run_hypothesis(
         )(test)
         try:
             test()
-        except _Fail:
+        except (_Fail, _Stop):
             pass
         except HarnessError:
             raise
